@@ -413,16 +413,62 @@ func errClass(err error) string {
 	return "EMalformed"
 }
 
+// The reader must behave the same whatever the byte source: one that implements
+// io.ByteReader (bytes.Reader: NewDecodingReader reads it directly), a plain
+// io.Reader (as an *os.File in Spiller.Readers or a network stream:
+// NewDecodingReader inserts a bufio.Reader, which reads ahead), and a plain
+// reader that delivers 1..7 bytes per call. Every stream is decoded through all.
+var sources = []string{"bytes", "plain", "short"}
+
+type shortReader struct {
+	b []byte
+	k int
+}
+
+func (r *shortReader) Read(p []byte) (int, error) {
+	if len(r.b) == 0 {
+		return 0, io.EOF
+	}
+	n := 1 + (r.k*3)%7
+	r.k++
+	if n > len(p) {
+		n = len(p)
+	}
+	if n > len(r.b) {
+		n = len(r.b)
+	}
+	copy(p, r.b[:n])
+	r.b = r.b[n:]
+	return n, nil
+}
+
+func openSrc(stream []byte, src string) io.Reader {
+	switch src {
+	case "plain":
+		return struct{ io.Reader }{bytes.NewReader(stream)} // hides ReadByte
+	case "short":
+		return &shortReader{b: stream}
+	}
+	return bytes.NewReader(stream)
+}
+
+func srcList(only string) []string {
+	if only != "" {
+		return []string{only}
+	}
+	return sources
+}
+
 // runReads makes one Read per destination size (cycling through dests) until
 // the first error, then one more (the error must be sticky), or until a panic.
 // It returns the sizes actually used, one per call.
-func runReads(stream []byte, sch []string, dests []int, maxCalls int) (used []int, results []Res) {
+func runReads(stream []byte, src string, sch []string, dests []int, maxCalls int) (used []int, results []Res) {
 	defer func() {
 		if r := recover(); r != nil {
 			results = append(results, Res{K: "panic", Msg: fmt.Sprint(r)})
 		}
 	}()
-	rd := sliceio.NewDecodingReader(bytes.NewReader(stream))
+	rd := sliceio.NewDecodingReader(openSrc(stream, src))
 	after := 0
 	for i := 0; i < maxCalls; i++ {
 		m := dests[i%len(dests)]
@@ -458,6 +504,7 @@ func runReads(stream []byte, sch []string, dests []int, maxCalls int) (used []in
 // ---------------------------------------------------------------- child process (damaged streams)
 
 type job struct {
+	Src      string   `json:"src"`
 	Sch      []string `json:"sch"`
 	Stream   string   `json:"stream"`
 	Dests    []int    `json:"dests"`
@@ -491,7 +538,7 @@ func childMain() {
 		stream, _ := base64.StdEncoding.DecodeString(j.Stream)
 		var m0, m1 runtime.MemStats
 		runtime.ReadMemStats(&m0)
-		used, res := runReads(stream, j.Sch, j.Dests, j.MaxCalls)
+		used, res := runReads(stream, j.Src, j.Sch, j.Dests, j.MaxCalls)
 		runtime.ReadMemStats(&m1)
 		js, _ := json.Marshal(jobOut{used, res, m1.TotalAlloc - m0.TotalAlloc})
 		out.Write(js)
@@ -533,12 +580,12 @@ const caseTimeout = 60 * time.Second
 // decodeGuarded runs runReads in the child; crash is "" or one of
 // "OOom" (the runtime could not get the memory), "OHuge" (one decode allocated
 // more than hugeAlloc), "OHang", "OCrash" (the process died otherwise).
-func decodeGuarded(stream []byte, sch []string, dests []int, maxCalls int) (used []int, results []Res, crash string, note string) {
+func decodeGuarded(stream []byte, src string, sch []string, dests []int, maxCalls int) (used []int, results []Res, crash string, note string) {
 	if theChild == nil {
 		theChild = startChild()
 	}
 	c := theChild
-	js, _ := json.Marshal(job{sch, base64.StdEncoding.EncodeToString(stream), dests, maxCalls})
+	js, _ := json.Marshal(job{src, sch, base64.StdEncoding.EncodeToString(stream), dests, maxCalls})
 	type reply struct {
 		line []byte
 		err  error
@@ -603,6 +650,7 @@ type Desc struct {
 	Ops   []Batch  `json:"ops"` // the batches written (named ops for the generic shrinker)
 	Dests []int    `json:"dests"`
 	Dmg   *Damage  `json:"dmg,omitempty"`
+	Src   string   `json:"src,omitempty"` // byte source the observation was made with (replay: only this one)
 }
 
 type streamInfo struct {
@@ -679,10 +727,10 @@ func (s *streamInfo) ref() string {
 	return s.def
 }
 
-func roundCase(s *streamInfo, dests []int) vf.Case {
+// roundCases decodes the stream through every byte source and returns one case
+// per distinct observation (one, when the reader is source-agnostic as it must be).
+func roundCases(s *streamInfo, dests []int, only string) []vf.Case {
 	max := totalRows(s.batches) + len(s.batches) + 3
-	used, res := runReads(s.bytes, s.sch, dests, max)
-	term := vf.App("CRound", s.ref(), vf.NatList(used), resultsTerm(res), "ONone")
 	maxb := 0
 	for _, b := range s.batches {
 		if nrows(b) > maxb {
@@ -695,16 +743,32 @@ func roundCase(s *streamInfo, dests []int) vf.Case {
 			buffered = true
 		}
 	}
-	nt := ""
-	if len(s.batches) > 0 && totalRows(s.batches) > 0 {
-		nt = vf.Hash(term)
-	}
 	kind := "round/direct"
 	if buffered {
 		kind = "round/buffered"
 	}
-	return vf.Case{Term: term, Desc: Desc{Sch: s.sch, Ops: s.batches, Dests: dests}, Sig: "codec-roundtrip", Nontriv: nt, Kind: kind,
-		Observed: fmt.Sprintf("%d bytes, %d reads, last=%s", len(s.bytes), len(res), lastOf(res))}
+	var cases []vf.Case
+	seen := map[string]int{}
+	for _, src := range srcList(only) {
+		used, res := runReads(s.bytes, src, s.sch, dests, max)
+		term := vf.App("CRound", s.ref(), vf.NatList(used), resultsTerm(res), "ONone")
+		if k, ok := seen[term]; ok {
+			cases[k].Observed = cases[k].Observed.(string) + "+" + src
+			continue
+		}
+		seen[term] = len(cases)
+		nt := ""
+		if len(s.batches) > 0 && totalRows(s.batches) > 0 {
+			nt = vf.Hash(term)
+		}
+		kd := kind
+		if len(cases) > 0 {
+			kd += "/differs-with-source"
+		}
+		cases = append(cases, vf.Case{Term: term, Desc: Desc{Sch: s.sch, Ops: s.batches, Dests: dests, Src: src}, Sig: "codec-roundtrip", Nontriv: nt, Kind: kd,
+			Observed: fmt.Sprintf("%d bytes, %d reads, last=%s, sources=%s", len(s.bytes), len(res), lastOf(res), src)})
+	}
+	return cases
 }
 
 func lastOf(res []Res) string {
@@ -783,7 +847,8 @@ func (s *streamInfo) batchEnds() []int {
 }
 
 // crcPrefixDamage reports whether every damaged byte of d is the first byte (the
-// gob message length prefix) of the checksum token of one batch, and which batch.
+// gob message length prefix) of the checksum token of one batch, with a damaged
+// value equal to the number of bytes that follow it in the stream, and which batch.
 func (s *streamInfo) crcPrefixDamage(d Damage) (batch int, ok bool) {
 	var first, n int
 	switch d.K {
@@ -801,7 +866,9 @@ func (s *streamInfo) crcPrefixDamage(d Damage) (batch int, ok bool) {
 	for _, t := range s.toks {
 		if t.K == "crc" {
 			if pos == first {
-				return k, true
+				// ... and the damaged prefix announces exactly the bytes left in the stream
+				nb := applyDamage(s.bytes, d)[pos]
+				return k, int(nb) == len(s.bytes)-pos-1
 			}
 			k++
 		}
@@ -900,7 +967,7 @@ func classify(s *streamInfo, d Damage, res []Res, crash string) (outcome, sig st
 	return "prefix-then-error", "codec-damage"
 }
 
-func damageCase(s *streamInfo, d Damage, dests []int) (vf.Case, string) {
+func damageCases(s *streamInfo, d Damage, dests []int, only string) ([]vf.Case, []string) {
 	dam := applyDamage(s.bytes, d)
 	otoks, term := tokenize(dam, s.sch)
 	keep := 0
@@ -924,26 +991,46 @@ func damageCase(s *streamInfo, d Damage, dests []int) (vf.Case, string) {
 		extra = append(extra, vf.Tuple(t.term(), nlit(t.Used)))
 	}
 	max := totalRows(s.batches) + len(s.batches) + 3
-	used, res, crash, note := decodeGuarded(dam, s.sch, dests, max)
-	if used == nil { // the child died: the calls are unknown, give the model the nominal ones
-		for i := 0; i < max; i++ {
-			used = append(used, dests[i%len(dests)])
+	var cases []vf.Case
+	var outcomes []string
+	seen := map[string]int{}
+	for _, src := range srcList(only) {
+		used, res, crash, note := decodeGuarded(dam, src, s.sch, dests, max)
+		if used == nil { // the child died: the calls are unknown, give the model the nominal ones
+			for i := 0; i < max; i++ {
+				used = append(used, dests[i%len(dests)])
+			}
+		}
+		cr := crash
+		if cr == "" {
+			cr = "ONone"
+		}
+		tm := vf.App("CDamage", s.ref(), d.term(), nlit(keep), vf.List(extra), resume, term, vf.NatList(used), shareObs(resultsTerm(res)), cr)
+		if k, ok := seen[tm]; ok {
+			cases[k].Observed = cases[k].Observed.(string) + "+" + src
+			continue
+		}
+		seen[tm] = len(cases)
+		outcome, sig := classify(s, d, res, crash)
+		obs := fmt.Sprintf("%s oracle=%s@tok%d last=%s %s", outcome, term, len(otoks), lastOf(res), note)
+		for _, r := range res {
+			if r.K == "panic" {
+				obs += " panic: " + r.Msg
+			}
+		}
+		kd := "damage/" + d.K + "/" + outcome
+		if len(cases) > 0 {
+			kd += "/differs-with-source"
+		}
+		dd := d
+		cases = append(cases, vf.Case{Term: tm, Desc: Desc{Sch: s.sch, Ops: s.batches, Dests: dests, Dmg: &dd, Src: src}, Sig: sig,
+			Nontriv: vf.Hash(tm), Kind: kd, Observed: strings.TrimSpace(obs) + " sources=" + src})
+		outcomes = append(outcomes, outcome)
+		if crash != "" {
+			break // an allocation of that size is not repeated for the other sources
 		}
 	}
-	cr := crash
-	if cr == "" {
-		cr = "ONone"
-	}
-	tm := vf.App("CDamage", s.ref(), d.term(), nlit(keep), vf.List(extra), resume, term, vf.NatList(used), shareObs(resultsTerm(res)), cr)
-	outcome, sig := classify(s, d, res, crash)
-	obs := fmt.Sprintf("%s oracle=%s@tok%d last=%s %s", outcome, term, len(otoks), lastOf(res), note)
-	for _, r := range res {
-		if r.K == "panic" {
-			obs += " panic: " + r.Msg
-		}
-	}
-	return vf.Case{Term: tm, Desc: Desc{Sch: s.sch, Ops: s.batches, Dests: dests, Dmg: &d}, Sig: sig,
-		Nontriv: vf.Hash(tm), Kind: "damage/" + d.K + "/" + outcome, Observed: strings.TrimSpace(obs)}, outcome
+	return cases, outcomes
 }
 
 // ---------------------------------------------------------------- generators
@@ -1000,7 +1087,8 @@ func main() {
 	opts := vf.ParseFlags()
 	thorough := opts.Tier == "thorough"
 	out := &vf.Output{ID: "C07", Import: "BS.C07.Corr",
-		Rule: "round trips over 9 column signatures (int, string, gob struct, session codec), the size grid {0,1,2,127,128,129}x{1,2,127,128,129} and random batch/destination sequences; " +
+		Rule: "every stream is decoded through three byte sources (bytes.Reader; a plain io.Reader without ReadByte; a plain reader delivering 1..7 bytes per call), one case per distinct observation; " +
+			"round trips over 9 column signatures (int, string, gob struct, session codec), the size grid {0,1,2,127,128,129}x{1,2,127,128,129} and random batch/destination sequences; " +
 			"then every single-bit flip and every truncation point of small streams, sampled flips/truncations and random 1-4 byte bursts of larger ones; " +
 			"non-trivial = a stream with at least one row (round trips) / every damage case; distinct by case text",
 		Extra: map[string]interface{}{}}
@@ -1012,11 +1100,28 @@ func main() {
 		return s
 	}
 	outcomes := map[string]int{}
-	addDamage := func(s *streamInfo, d Damage, dests []int) {
-		c, oc := damageCase(s, d, dests)
-		outcomes[oc]++
-		out.Add(c)
+	only := ""
+	addRound := func(s *streamInfo, dests []int) {
+		for _, c := range roundCases(s, dests, only) {
+			out.Add(c)
+		}
 	}
+	addDamageOc := func(s *streamInfo, d Damage, dests []int) string {
+		cs, ocs := damageCases(s, d, dests, only)
+		for i, c := range cs {
+			outcomes[ocs[i]]++
+			out.Add(c)
+		}
+		// the worst outcome over the sources, for the per-stream tallies
+		oc := ocs[0]
+		for _, o := range ocs {
+			if o != "error" && o != "prefix-then-error" && o != "valid-prefix" {
+				oc = o
+			}
+		}
+		return oc
+	}
+	addDamage := func(s *streamInfo, d Damage, dests []int) { addDamageOc(s, d, dests) }
 
 	if opts.Replay != "" {
 		var descs []Desc
@@ -1027,6 +1132,7 @@ func main() {
 			if len(d.Dests) == 0 {
 				d.Dests = []int{1}
 			}
+			only = d.Src
 			for i, b := range d.Ops { // a shrunk description may be ragged: skip broken batches
 				if len(b) != len(d.Sch) {
 					d.Ops = append(d.Ops[:i:i], d.Ops[i+1:]...)
@@ -1035,7 +1141,7 @@ func main() {
 			}
 			s := buildStream(d.Sch, d.Ops)
 			if d.Dmg == nil {
-				out.Add(roundCase(s, d.Dests))
+				addRound(s, d.Dests)
 				continue
 			}
 			dm := *d.Dmg
@@ -1044,7 +1150,7 @@ func main() {
 				limit *= 8
 			}
 			if limit == 0 {
-				out.Add(roundCase(s, d.Dests))
+				addRound(s, d.Dests)
 				continue
 			}
 			dm.Pos %= limit
@@ -1065,7 +1171,7 @@ func main() {
 					}
 					// the grid batch between two small ones, so that buffering state is carried over
 					bs := []Batch{genBatch(gr, sch, gr.Range(0, 2)), genBatch(gr, sch, bn), genBatch(gr, sch, gr.Range(1, 3))}
-					out.Add(roundCase(buildStream(sch, bs), []int{dn}))
+					addRound(buildStream(sch, bs), []int{dn})
 				}
 			}
 		}
@@ -1096,7 +1202,7 @@ func main() {
 					dests[k] = r.Pick(gridDest)
 				}
 			}
-			out.Add(roundCase(buildStream(sch, bs), dests))
+			addRound(buildStream(sch, bs), dests)
 		}
 		// ---- damage
 		dr := root.Split()
@@ -1112,16 +1218,10 @@ func main() {
 				}
 			}
 			for bit := 0; bit < 8*len(s.bytes); bit++ {
-				c, oc := damageCase(s, Damage{K: "flip", Pos: bit}, dests)
-				outcomes[oc]++
-				out.Add(c)
-				note("flip", bit, oc)
+				note("flip", bit, addDamageOc(s, Damage{K: "flip", Pos: bit}, dests))
 			}
 			for cut := 0; cut < len(s.bytes); cut++ {
-				c, oc := damageCase(s, Damage{K: "trunc", Pos: cut}, dests)
-				outcomes[oc]++
-				out.Add(c)
-				note("trunc", cut, oc)
+				note("trunc", cut, addDamageOc(s, Damage{K: "trunc", Pos: cut}, dests))
 			}
 			exhaustive = append(exhaustive, map[string]interface{}{
 				"stream": s.name, "columns": s.sch, "bytes": len(s.bytes), "rows": totalRows(s.batches),
